@@ -186,8 +186,24 @@ fn check_tree<T: Scalar>(spec: &Spec, alpha: &[f64], depth: usize, st: &mut Stat
 }
 
 /// (ii) constant streams are reproduced exactly (Q) / within (4N+8) ulp (f64)
+/// Conditioning of Alma's running weighted sums on a constant stream: once the window has slid,
+/// every held sample carries w(N-1); when a sample with a larger weight w_max has been evicted,
+/// its rounding residue (eps * w_max * |c|) is seen relative to the remaining N * w(N-1).
+fn alma_condition(spec: &Spec) -> f64 {
+    if !matches!(spec.kind, Kind::Alma | Kind::AlmaCustom) {
+        return 1.0;
+    }
+    let (sg, of) = alma_params(spec);
+    let n = spec.n;
+    let w: Vec<f64> = (0..n).map(|k| refs::alma_weight::<f64>(k, n, sg, of)).collect();
+    let wmax = w.iter().fold(0.0f64, |m, x| m.max(*x));
+    let wmin_sum = w.iter().fold(f64::MAX, |m, x| m.min(*x)) * n as f64;
+    (wmax / wmin_sum).max(1.0)
+}
+
 fn constant_streams<T: Scalar>(spec: &Spec, st: &mut Stats, sink: &Sink) {
     let n = spec.n;
+    let cond = alma_condition(spec);
     let mut cs: Vec<f64> = Z5.to_vec();
     cs.extend(D4);
     cs.extend(F6);
@@ -205,7 +221,7 @@ fn constant_streams<T: Scalar>(spec: &Spec, st: &mut Stats, sink: &Sink) {
                     let ok = if T::EXACT {
                         o == T::of(c)
                     } else {
-                        (o.f() - T::of(c).f()).abs() <= (4 * n + 8) as f64 * T::EPS * c.abs()
+                        (o.f() - T::of(c).f()).abs() <= (4 * n + 8) as f64 * T::EPS * c.abs() * cond
                     };
                     if !ok {
                         return Some((i, o));
@@ -230,7 +246,8 @@ pub fn run(ctx: &Ctx) -> CheckOutput {
     let mut jobs: Vec<Job> = vec![];
     for spec in specs(quick) {
         let depth = (2 * spec.n + 3).min(if quick { 6 } else { 8 });
-        {
+        // developer aid: VERIF_C04_ONLY_CONSTANT=1 runs the constant-stream clause alone
+        if std::env::var("VERIF_C04_ONLY_CONSTANT").is_err() {
             let spec = spec.clone();
             jobs.push(Box::new(move || {
                 let mut st = Stats::default();
